@@ -221,9 +221,15 @@ class Exec:
                 args.append(v.t)
             else:
                 return Str(t=z3.Const(fresh_name("fstr"), StrSort))
-        key = "fmt_" + "_".join(str(a.sort()) for a in args) + f"_{abs(hash(ast.dump(n))) % 10**8}"
+        template = "".join(v.value if isinstance(v, ast.Constant) else "{}" for v in n.values)
+        key = "fmt<" + template + ">" + "_".join(str(a.sort()) for a in args)
         f = z3.Function(key, *[a.sort() for a in args], StrSort)
-        self.trace.setdefault("fmt_funcs", set()).add(key)
+        if key not in self.trace.setdefault("fmt_funcs", set()):
+            self.trace["fmt_funcs"].add(key)
+        # injectivity (assumed: distinct values format differently), ground-instantiated per query
+        from .values import register_injective
+        if args:
+            register_injective(f)
         return Str(t=f(*args))
 
     def ev_Name(self, n, p):
@@ -254,6 +260,8 @@ class Exec:
 
     def qual_value(self, qual, node=None):
         if qual in self.handlers:
+            if qual in CONSTANT_HANDLERS:
+                return self.handlers[qual](self, Path(), [], {}, node)[0][1]
             return Fn("handler", qual)
         r = self.repo.resolve(qual)
         kind = r[0]
@@ -451,6 +459,10 @@ class Exec:
     def concat(self, a: Lst, b: Lst):
         if a.concrete and b.concrete:
             return Lst(items=a.items + b.items)
+        if a.concrete and not a.items:
+            return b
+        if b.concrete and not b.items:
+            return a
         na = a.length()
         return Lst(n=na + b.length(), at=lambda i: ite(i < na, a.at(i), b.at(i - na)))
 
@@ -1071,6 +1083,7 @@ def bind_arguments(ex: Exec, fmod: Module, fnode, args, kwargs, p: Path, closure
     return env
 
 
+CONSTANT_HANDLERS = {"uuid.NAMESPACE_DNS"}
 BUILTIN_NAMES = {"len", "min", "max", "abs", "int", "float", "bool", "str", "isinstance", "any", "all", "next", "set",
                  "list", "dict", "tuple", "zip", "enumerate", "range", "sum", "hasattr", "getattr", "iter", "sorted",
                  "round", "print", "repr", "id", "hash", "type", "super", "reversed", "map", "filter",
